@@ -88,7 +88,7 @@ func c08cli(c *h.Ctx) {
 				if r.Chance(30) {
 					// a stage-level condition that holds and takes a moment (evaluated on every pass while the stage waits)
 					s.cond = real + "/cond-" + id + ".sh" // (executed directly, not through a shell)
-					os.WriteFile(s.cond, []byte(fmt.Sprintf("#!/bin/sh\nsleep 0.0%d\nexit 0\n", 2+r.Intn(6))), 0o755)
+					h.WriteExec(s.cond, []byte(fmt.Sprintf("#!/bin/sh\nsleep 0.0%d\nexit 0\n", 2+r.Intn(6))), 0o755)
 				}
 				if r.Chance(70) {
 					s.vars["V_"+id] = "var-of-" + id
